@@ -238,7 +238,7 @@ CLAIMED = {
         "(stability), up to 6 of the alias substitution sites per object (~5000 sites per quick run), a multi-file system layout "
         "(sub-directory, .npy state, text chemostats, relative and absolute paths), a nested script layout (script -> system file in another directory -> its own network / space / state / chemostats files -> the grid's environments file) and a dictionary with every documented default "
         "omitted; the physical content (all quantities in SI, labels, stoichiometry, geometry, flags, unit systems, sampling parameters, "
-        "processing mode, seed, times, data) of each result is compared with the original's in Coq. Environments that share a value are handed to the constructors under one grouped key (\\"e0, e1\\"), with and without blanks around the comma, in every check that draws systems.",
+        "processing mode, seed, times, data) of each result is compared with the original's in Coq. Environments that share a value are handed to the constructors under one grouped key ('e0, e1'), with and without blanks around the comma, in every check that draws systems.",
         "Trusted: Coq kernel + VM; harness/fingerprint.py (which fields constitute the physical content: bases of a unit with a zero "
         "exponent are not compared, following Units.__eq__); sampled correspondence (150 objects quick, 3000 thorough); the translator "
         "harness/translate_schemas.py (Python ast -> Model/Schemas.v; it reads the literal synonym table passed to process_input_dict_keys, "
